@@ -307,7 +307,9 @@ impl quote::ToTokens for ImplWhereClauseGenerator<'_, '_, '_> {
                 // Impl<T> bounds
 
                 let has_bounds = self.trait_fns.iter().any(|trait_fn| match &trait_fn.deps {
-                    FnDeps::Generic { trait_bounds, .. } => !trait_bounds.is_empty(),
+                    FnDeps::Generic { trait_bounds, .. } => {
+                        trait_bounds.iter().any(|bound| !is_relaxed_bound(bound))
+                    }
                     _ => false,
                 });
 
@@ -360,8 +362,21 @@ fn push_impl_t_bounds(
     for trait_fn in trait_fns {
         if let FnDeps::Generic { trait_bounds, .. } = &trait_fn.deps {
             for bound in trait_bounds {
-                bound_punctuator.push(bound);
+                if !is_relaxed_bound(bound) {
+                    bound_punctuator.push(bound);
+                }
             }
         }
     }
+}
+
+/// A relaxed bound (`?Sized`) says something about the dependency parameter itself, it cannot be required of `Self`
+fn is_relaxed_bound(bound: &syn::TypeParamBound) -> bool {
+    matches!(
+        bound,
+        syn::TypeParamBound::Trait(syn::TraitBound {
+            modifier: syn::TraitBoundModifier::Maybe(_),
+            ..
+        })
+    )
 }
